@@ -117,6 +117,15 @@ def jobs(tier, seed):
         events = []
         for _ in range(n_ev):
             events.append(rng.choice(OBS) if rng.random() < 0.55 else rng.choice(MUT))
+        # at most two growth events per history (each adds a symbolic duration: the number of orderings, hence of paths, explodes otherwise)
+        kept, n_growth = [], 0
+        for e in events:
+            if e in ('add', 'addsub', 'grow', 'grownew'):
+                n_growth += 1
+                if n_growth > 2:
+                    continue
+            kept.append(e)
+        events = kept
         if not any(e in OBS for e in events):
             events.insert(rng.randrange(len(events) + 1), rng.choice(OBS))
         final = rng.choice(['times', 'times', 'nest', 'unrolled', 'stim', 'retained', 'duration_only', 'held', 'held'])
